@@ -104,12 +104,8 @@ impl CertificateSigningRequestParams {
 			.map_err(|_| Error::CouldNotParseCertificationRequest)?
 			.1;
 		csr.verify_signature().map_err(|_| Error::RingUnspecified)?;
-		let alg_oid = csr
-			.signature_algorithm
-			.algorithm
-			.iter()
-			.ok_or(Error::CouldNotParseCertificationRequest)?
-			.collect::<Vec<_>>();
+		let alg_oid = crate::oid::components(&csr.signature_algorithm.algorithm)
+			.ok_or(Error::CouldNotParseCertificationRequest)?;
 		let alg = SignatureAlgorithm::from_oid(&alg_oid)?;
 
 		let info = &csr.certification_request_info;
